@@ -241,7 +241,7 @@ def monopole(ctx):
                 copies.append(c)
                 return c
             return list(x) if isinstance(x, (list, tuple)) else x
-        attrs = {'lineindex': line, 'rcell': RC(), 'shift': SH, 'dislsol': Sol(), 'set_shift': lambda *a: log.append(('set_shift', a)), 'set_systems': lambda b, d: log.append(('set_systems', b, d)),
+        attrs = {'lineindex': line, 'rcell': RC(), 'shift': SH, 'dislsol': Sol(), 'set_shift': lambda *a, **k: log.append(('set_shift', _sargs(a, k))), 'set_systems': lambda b, d: log.append(('set_systems', b, d)),
                  'box_boundary': lambda box, w: (log.append(('box_boundary', box, w)) or Shape()), 'cylinder_boundary': lambda box, w: (log.append(('cylinder_boundary', box, w)) or Shape()),
                  'ucell': None}
         attrs.update(extra)
@@ -312,7 +312,7 @@ def monopole(ctx):
     for tag, kw, want_call, want_shift in (('shiftindex=0', dict(shiftindex=0), (None, 0, False), TS), ('shiftindex=2', dict(shiftindex=2), (None, 2, False), TS),
                                            ('shift vector, box-relative', dict(shift='V', shiftscale=True), ('V', None, True), TS), ('neither', {}, None, SH)):
         obj, ev, log, base, copies = setup(1)
-        obj.attrs['set_shift'] = lambda *a, o=obj, l=log: (l.append(('set_shift', a)), o.attrs.__setitem__('shift', TS))[0]
+        obj.attrs['set_shift'] = lambda *a, o=obj, l=log, **k: (l.append(('set_shift', _sargs(a, k))), o.attrs.__setitem__('shift', TS))[0]
         try:
             r = [q for q in ev.run_fn(fn, [obj], dict(kw)) if q.done == 'return']
         except Opaque as e:
@@ -325,6 +325,14 @@ def monopole(ctx):
     obj, ev, log, base, copies = setup(1)
     paths = ev.run_fn(fn, [obj], dict(boundaryshape='sphere'))
     ctx.ob('MONOPOLE', loc, 'an unknown boundary shape is refused', not [q for q in paths if q.done == 'return'], node=fn, key='shape')
+
+
+def _sargs(a, k):
+    """the arguments of Dislocation.set_shift(shift, shiftindex, shiftscale) as a tuple, however they were passed"""
+    names = ('shift', 'shiftindex', 'shiftscale')
+    vals = dict(zip(names, a))
+    vals.update(k)
+    return tuple(vals.get(n_, False if n_ == 'shiftscale' else None) for n_ in names)
 
 
 class Plane(PyStub):
@@ -448,7 +456,7 @@ def array(ctx):
 
         def inside(self, pos):
             return np.array([True, False, False])
-    obj = SymObj(None, {'lineindex': 0, 'rcell': RC(), 'shift': SH, 'set_shift': lambda *a: None, 'set_systems': lambda b, d: log.append(('set_systems', b, d)),
+    obj = SymObj(None, {'lineindex': 0, 'rcell': RC(), 'shift': SH, 'set_shift': lambda *a, **k: None, 'set_systems': lambda b, d: log.append(('set_systems', b, d)),
                         'build_disl_array': lambda b, c, **k: (log.append(('build', b, np.array(c, dtype=object), k)) or disl), 'array_boundary': lambda box, w: (log.append(('array_boundary', box, w)) or Shape())}, 'self')
     def SymEvalPA():
         e_ = SymEval(aliases)
@@ -480,7 +488,7 @@ def array(ctx):
         disl.atoms.atype = arr([1, 2, 1])
         disl.symbols = ('Al', 'Cu')
         obj.attrs['shift'] = SH
-        obj.attrs['set_shift'] = lambda *a: (log.append(('set_shift', a)), obj.attrs.__setitem__('shift', TS))[0]
+        obj.attrs['set_shift'] = lambda *a, **k: (log.append(('set_shift', _sargs(a, k))), obj.attrs.__setitem__('shift', TS))[0]
         try:
             r = [q for q in SymEvalPA().run_fn(pfn, [obj], dict(sizemults=(1, 4, 2), **kw)) if q.done == 'return']
         except Opaque as e:
@@ -695,25 +703,41 @@ def disregistry(ctx):
 
 
 def own_planes(ctx):
-    """the boundary builders move the planes they get from Box.planes in place (plane.point -= width * normal); Plane keeps the point array it is given, so every
-    array handed to a Plane by Box.planes must be a fresh object: not the box's stored origin or vectors (the reference cell would move with the boundary), and a new
-    one for each plane (two faces through one array would move together)"""
-    BOX = 'atomman/core/Box.py'
-    cls = ctx.fn(BOX, 'Box')
-    pl = ctx.fn(BOX, 'Box.planes')
-    summ = effects.class_property_summaries(cls, base={'deepcopy': ('fresh',)})
-    eff = effects.Effects(pl, summaries=summ)
-    calls = [c for c in calls_in(pl) if norm(c.func) == 'Plane']
+    """the boundary builders move the planes they get from Box.planes in place (plane.point -= width * normal); Plane keeps the point array it is given.  Box.planes is
+    interpreted on a model box with the real Plane class: the point and normal arrays the six planes end up holding share no memory with the box's stored origin and
+    vectors (the reference cell would move with the boundary) nor with one another (two faces would move together)"""
+    import numpy as np
+    from ..symx import symarray
+    BOX, PLANE = 'atomman/core/Box.py', 'atomman/region/Plane.py'
+    cls, pcls = ctx.fn(BOX, 'Box'), ctx.fn(PLANE, 'Plane')
+    V, o = symarray('v', (3, 3), real=True), symarray('o', (3,), real=True)
+    box = SymObj(cls, {'_Box__vects': V, '_Box__origin': o, '_Box__reciprocal_vects': None}, 'box')
+    ev = SymEval(module_aliases(ctx.mod(BOX)))
+    ev.classes['Plane'] = (pcls, ())
+    try:
+        pl = ev.getattr(box, 'planes', None, Path({}))
+    except (Opaque, WouldRaise) as e:
+        raise AnalysisError('Box.planes on the model box: %s' % e)
+    pl = list(pl) if isinstance(pl, (tuple, list)) else []
+    ctx.need(len(pl) == 6 and all(isinstance(x, SymObj) for x in pl), 'Box.planes does not return six Plane objects on the model box')
+    pts = [x.attrs.get('_Plane__point') for x in pl]
+    nrm = [x.attrs.get('_Plane__normal') for x in pl]
+    ctx.need(all(is_arr(a_) for a_ in pts + nrm), 'the planes of the model box do not hold point and normal arrays')
     bad = []
-    for c in calls:
-        for a in list(c.args) + [k.value for k in c.keywords]:
-            o = eff.origins(a)
-            if o != {effects.FRESH}:
-                bad.append('%s (line %d) may be %s' % (norm(a), a.lineno, sorted(x for x in o if x != effects.FRESH)))
-    ctx.ob('OWN-PLANES', BOX + '::Box.planes', 'every normal and point given to the %d planes is a fresh array (a copy-returning property or a computed value), never the box\'s own storage or a shared object' % len(calls),
-           len(calls) == 6 and not bad, '; '.join(bad), node=pl)
-    pt = ctx.fn('atomman/region/Plane.py', 'Plane.point')
-    ctx.floor('OWN-PLANES/planes', len(calls), 6)
+    for i, a_ in enumerate(pts + nrm):
+        what = 'point of plane %d' % i if i < 6 else 'normal of plane %d' % (i - 6)
+        if a_ is o or a_ is V or np.shares_memory(a_, o) or np.shares_memory(a_, V):
+            bad.append('%s is the box\'s own storage' % what)
+        for j, b_ in enumerate((pts + nrm)[:i]):
+            if a_ is b_ or np.shares_memory(a_, b_):
+                bad.append('%s shares memory with %s' % (what, 'point of plane %d' % j if j < 6 else 'normal of plane %d' % (j - 6)))
+    ctx.ob('OWN-PLANES', BOX + '::Box.planes', 'the six planes hold arrays of their own: none is the box\'s stored origin or vectors (or a view of them), no two share memory', not bad, '; '.join(bad[:4]),
+           node=ctx.fn(BOX, 'Box.planes'))
+    want = [(np.cross(V[2], V[1]), o), (np.cross(V[0], V[2]), o), (np.cross(V[1], V[0]), o), (np.cross(V[1], V[2]), o + V[0]), (np.cross(V[2], V[0]), o + V[1]), (np.cross(V[0], V[1]), o + V[2])]
+    ok = all(equal(np.asarray(p_, dtype=object), np.asarray(w_[1], dtype=object), deep=False) and all(is_zero(sp.simplify(c_)) for c_ in np.cross(np.asarray(n_, dtype=object), w_[0]))
+             for p_, n_, w_ in zip(pts, nrm, want))
+    ctx.ob('OWN-PLANES', BOX + '::Box.planes', 'the planes are the three lower faces through the origin and the three upper faces through origin + a, b, c, each normal along the cross product of the two in-face vectors', bool(ok),
+           node=ctx.fn(BOX, 'Box.planes'), key='planes geometry')
 
 
 def deleted_count(ctx):
